@@ -62,6 +62,11 @@ def apply_op(lines: list[str], op: dict[str, Any]) -> list[str]:
     if k == "line_insert":
         out.insert(min(op["i"], n), op["line"])
         return out
+    if k == "line_flood":
+        # a run of many copies of one line (a section full of lines of one kind: thresholds,
+        # budgets and caches that a handful of lines never reach)
+        i0 = min(op["i"], n)
+        return out[:i0] + [op["line"]] * int(op["count"]) + out[i0:]
     if n == 0:
         return out
     i = op["i"] % n
